@@ -119,8 +119,13 @@ Ltac znorm ::=
   unfold add8, sub8, conv8, add16, sub16, conv16, w16, w8, wtrunc;
   repeat match goal with |- context [?a <? 128] => destruct (a <? 128) end.
 
+(* a routine of the model called at the head of a bind for which nothing is known here (e.g. a private helper a maintainer
+   extracted from the branch routines): unfold it, delta only, and re-normalise *)
+Ltac helper_norm :=
+  repeat match goal with |- context [bind (?h ?x) _] => is_const h; cbv delta [h]; cbv beta zeta end.
+
 Ltac branch_op op routine mn :=
-  start_rel op; cbv beta zeta delta [routine addBranchCycles b2z];
+  start_rel op; cbv beta zeta delta [routine addBranchCycles b2z]; helper_norm;
   match goal with W : wf ?s, HE : get f_E ?s = 0, Hop : opcode_at ?s = _, Hs1 : same ?s ?s1, Hsz : get f_stepPC ?s1 = _ |- _ =>
     to_initial s s1 Hs1; split_N s W; split_V s W; split_Z s W; split_C s W; lits;
     repeat match goal with |- context [if pagesDiffer ?a ?b then _ else _] => destruct (pagesDiffer a b) end;
